@@ -529,6 +529,8 @@ RL = "nostr_relay/rate_limiter.py"
 WEB = "nostr_relay/web.py"
 
 MUTANTS = [
+    M("c18-wall-clock", "nostr_relay/rate_limiter.py", "        return perf_counter() - self._starttime", "        import time\n\n        return time.time() - self._starttime", "C18.clock"),
+    M("c18-limiter-asked-twice", "nostr_relay/web.py", "                if rate_limiter and rate_limiter.is_limited(remote_addr, message):\n                    if command == \"EVENT\":", "                if rate_limiter and rate_limiter.is_limited(remote_addr, [command]):\n                    continue\n                if rate_limiter and rate_limiter.is_limited(remote_addr, message):\n                    if command == \"EVENT\":", "C18.once"),
     M("c18-return-false-in-loop", "nostr_relay/rate_limiter.py", "                        if count == freq:\n                            self.log.debug(\"%d/%d\", freq, interval)\n                            return True\n",
       "                        if count == freq:\n                            self.log.debug(\"%d/%d\", freq, interval)\n                            return True\n                    return False\n", "C18.allrules"),
     M("c18-break-rule-loop", "nostr_relay/rate_limiter.py", "                for interval, freq in rules:\n                    count = 0\n", "                for interval, freq in rules:\n                    if interval < 60:\n                        break\n                    count = 0\n", "C18.allrules"),
